@@ -135,6 +135,9 @@ structure SInv (P : Nat → Prop) (s : Sample Rat) : Prop where
   dataP : ∀ x ∈ s.data, P x
   partP : ∀ x ∈ s.part, P x
 
+theorem SInv.mono {Q : Nat → Prop} {s : Sample Rat} (hPQ : ∀ x, P x → Q x) (h : SInv P s) : SInv Q s :=
+  ⟨h.cnn, h.len, h.part, fun x hx => hPQ x (h.dataP x hx), fun x hx => hPQ x (h.partP x hx)⟩
+
 theorem sinv_empty : SInv P (Sample.empty : Sample Rat) := by
   refine ⟨by simp [Sample.empty], ?_, ?_, by simp [Sample.empty], by simp [Sample.empty]⟩
   · simp only [Sample.empty, rat_zero, List.length_nil]
